@@ -100,3 +100,26 @@ Proof.
   - split; [reflexivity|]. repeat constructor; lia.
   - vm_compute. reflexivity.
 Qed.
+
+(* C16, the room-for-both regime: two elements whose first bucket is the same, empty, two-slot
+   bucket of a new filter - every schedule stores both *)
+From GX.Model Require Import Interleave.
+From GX.Proofs Require Import CuckooConc.
+Definition h64c (x : bytes) : N := match x with [1] => 123456789 | _ => 987654321 end.
+
+Example concurrent_inserts_premises_hold : forall sched, exists s s',
+  RI k_a k_m 4 2 s /\
+  interleave sched 4 (ck_insert_prog h64c (hdl k_a k_m 4 2 2 5) [1]) (ck_insert_prog h64c (hdl k_a k_m 4 2 2 5) [2]) s = (s', Some 1, Some 1) /\
+  RI k_a k_m 4 2 s' /\ tot k_a 4 s' = 2%nat /\ In [49; 50] (blist k_a s' 1) /\ In [57; 56] (blist k_a s' 1).
+Proof.
+  intros sched.
+  destruct (rck_new_RI k_a k_m 4 2 km_not_bucket km_not_len ltac:(lia) ltac:(vm_compute; reflexivity) 2 5 (fun _ => 0) ltac:(lia) [])
+    as [HRI Htot]; [vm_compute; discriminate|intros i _; split; reflexivity|].
+  set (s := snd (rck_new [] 4 2 2 5 k_a k_m)) in *.
+  assert (Hl : blist k_a s 1 = []) by (vm_compute; reflexivity).
+  destruct (concurrent_inserts_with_room k_a k_m 4 2 km_not_bucket km_not_len ltac:(lia) ltac:(vm_compute; reflexivity) ltac:(lia)
+              2 5 h64c sched 4 s [1] [2] [49; 50] 1 0 [57; 56] 1 0 HRI ltac:(lia))
+    as (s' & Ei & HRI' & Ht' & Ha & Hb); try (vm_compute; reflexivity); try lia; try discriminate;
+    try (rewrite Hl; cbn; lia).
+  exists s, s'. rewrite Htot in Ht'. auto 7.
+Qed.
